@@ -40,7 +40,7 @@ HELPER_CHUNK = 130
 
 # ------------------------------------------------------------------------------------------------
 # the alphabet
-# every rule: language JavaScript, non-empty message that uses meta-variables, no `note`, no `fix`,
+# every rule: language JavaScript, non-empty message that uses meta-variables, no `note`, no `fix` (but r7),
 # no `url`, no suppression comments in the sources (C14's subject)
 POOL = [
     {"id": "r1", "language": "JavaScript", "severity": "error",
@@ -59,6 +59,9 @@ POOL = [
     {"id": "r6", "language": "JavaScript", "severity": "error",
      "message": "six on $F",
      "rule": {"kind": "call_expression", "has": {"field": "function", "pattern": "$F", "regex": "^both$"}}},
+    # the only rule WITH a fix (output paths differ for fixable rules); its matches nest
+    {"id": "r7", "language": "JavaScript", "severity": "warning",
+     "message": "seven $Z", "rule": {"pattern": "sev($Z)"}, "fix": "sev7($Z)"},
 ]
 ELEMENTS = [
     "foo(a,\n b, c)",                 # a match of r1 that spans two lines
@@ -67,6 +70,7 @@ ELEMENTS = [
     "let n = 0",                      # no match
     "\"héé→\"; bar(ü)",   # 2- and 3-byte characters before and inside a match of r2
     "",                               # blank
+    "sev(sev(1)); sev(2)",            # nested and sibling matches of the fixable rule r7
 ]
 
 
